@@ -10,6 +10,10 @@ EXTENDS Naturals, Sequences, FiniteSets, Json, IOUtils, TLC, SequencesExt
 
 CONSTANT MaxN
 FaultKinds == {"exhausted", "malformed", "limit", "panic"}
+\* the container's own allocation announcement is refused by a memory limit before anything is constructed
+HookShapes == { <<"box", 1>>, <<"rc", 1>>, <<"arc", 1>>, <<"boxtuple", 2>>, <<"boxarray", 1>>, <<"boxarray", 4>>, <<"rcarray", 3>>,
+                <<"boxtransp", 1>>, <<"boxarrtransp3", 3>>, <<"boxarraytransp", 2>> }
+\* a transparent newtype whose only field is skipped: filled with its default, in place
 SeqShapes == {"array", "boxarray", "rcarray", "arrayofbox", "arrayopt", "vecarray2", "arraytransp", "boxarraytransp",
               "vec", "deque", "list", "map", "vecbox", "vecvec"}
 \* shapes with a fixed number of instrumented elements
@@ -26,7 +30,9 @@ Vecs ==
       fixv == UNION { { [shape |-> t[1], n |-> t[2], f |-> -1, kind |-> "none"] }
                       \cup { [shape |-> t[1], n |-> t[2], f |-> f, kind |-> k] : f \in 0..(t[3] - 1), k \in FaultKinds }
                       : t \in FixedShapes }
-  IN SetToSeq(seqok \cup fixv)
+      hookv == { [shape |-> t[1], n |-> t[2], f |-> 0, kind |-> "hooklimit"] : t \in HookShapes }
+      skipv == { [shape |-> sh, n |-> 1, f |-> -1, kind |-> "none"] : sh \in {"boxtranspskip", "arraytranspskip", "rctranspskip"} }
+  IN SetToSeq(seqok \cup fixv \cup hookv \cup skipv)
 
 ASSUME ndJsonSerialize(IOEnv.OUT, Vecs)
 ASSUME PrintT(<<"VECTORS", Len(Vecs)>>)
